@@ -138,6 +138,9 @@ def fam_c11(R, n):
 POOL8 = ['a', '[a-c]', 'a+', '[a-z]+', 'ab', 'a|b', '(?i:a)', 'a?b', '[ab]c', '.', 'a.', 'aa*', 'a{1,2}', 'abc', 'ab*', '[^b]', 'é', '[é-ü]',
          'a[a-z]*', '[a-z]*b', 'b', 'ba', '[0-9]+', '[0-9a-f]+', '0x[0-9a-f]+', 'a(b|c)', 'ac', '(ab)+', 'abab', 'x', 'xy?', 'a+b+', 'aab']
 
+POOL8L = ['a$', 'a(?-u:\\b)', 'ab$', 'a(?m:$)', 'a(?-u:\\B)', '[a-z]+(?-u:\\b)', 'a+$', 'a(?-u:\\b{end})', 'a(?-u:\\b)-', 'a-', 'a(?mR:$)',
+          'a(?-u:\\b{end-half})', 'a\\n', 'a(?m:$)\\n', '[a-c](?-u:\\B)', 'a(?-u:\\b)b', 'ab', 'a(?-u:\\B)b', 'a\\r?(?mR:$)', '[a-z]+$']
+
 
 def fam_c08(R, n):
     out = []
@@ -164,6 +167,18 @@ def fam_c08(R, n):
             args = rust_str(p) + ('' if pr is None else ', priority = %d' % pr)
             vs.append('#[%s(%s)] V%d,' % ('token' if tok else 'regex', args, j))
         out.append(dict(family='c08', src=enum([], vs), meta=dict(leaves=leaves)))
+    # look-around patterns: two patterns may tie only in some contexts (end of input, before a non-word byte, ...)
+    for i in range(max(6, n // 3)):
+        k = R.choice([2, 2, 3, 3, 4])
+        mode = R.random()
+        base = R.choice([1, 2, 3, 5])
+        leaves = []
+        for j in range(k):
+            p = R.choice(POOL8L) if (j == 0 or R.random() < 0.5) else R.choice(POOL8)
+            pr = base if mode < 0.5 else (None if mode < 0.75 else base + R.choice([0, 0, 1, 2]))
+            leaves.append((False, p, pr))
+        vs = ['#[regex(%s)] V%d,' % (rust_str(p) + ('' if pr is None else ', priority = %d' % pr), j) for j, (_, p, pr) in enumerate(leaves)]
+        out.append(dict(family='c08-look', src=enum([], vs), meta=dict(leaves=leaves)))
     return out
 
 
